@@ -21,6 +21,8 @@ completes" hypothesis.  Namespace prefixes are not modelled.
 -/
 import XmlDiffModel.Proofs.Chaw6
 import XmlDiffModel.Proofs.Prog3
+import XmlDiffModel.Proofs.Strict
+import XmlDiffModel.Props.C18
 import XmlDiffModel.Proofs.Patch
 import XmlDiffModel.Props.C07
 
@@ -129,6 +131,30 @@ theorem C01_roundtrip (sim : Sim) (hF : 0 < cfg.F) (hL : L.WF) (hR : R.WF) (hdis
   obtain ⟨script, final, h⟩ := scriptGen_total qn cfg L R _ fresh hL hR hdisj hfL hfR hM hA hC
   obtain ⟨⟨nx, hrun⟩, hd⟩ := C01_script_reaches_right qn cfg L R fresh script final _ hL hR hdisj hfL hfR hM hA hC h
   exact ⟨script, final, nx, h, hrun, hd⟩
+
+/-- C05 for the differ's scripts: the documented action semantics (`applyStrict`: unique addressing, attribute
+preconditions, insert / move positions between 0 and the child count not counting the moved node, no move into the
+own subtree, deletion of childless nodes only) accepts every action of the script in order, and ends with the differ's
+final working copy. -/
+theorem C05_differ_script_accepted (M : List (Nat × Nat)) (hL : L.WF) (hR : R.WF) (hdisj : ∀ i ∈ ids L, i ∉ ids R)
+    (hfL : ∀ i ∈ ids L, i < fresh) (hfR : ∀ i ∈ ids R, i < fresh) (hM : GoodMatching L R M)
+    (hA : ∀ x ∈ Tree.bfs R, (keys x.payload.attrs).Nodup)
+    (hC : ∀ x ∈ Tree.bfs R, x.payload.kind = .comment → x.payload.tag = [])
+    (h : scriptGen qn cfg L R M fresh = .ok (script, final)) :
+    ∃ nx, runStrict qn ⟨L, fresh⟩ script = .ok ⟨final, nx⟩ :=
+  scriptGen_strict qn cfg L R M fresh script final hL hR hdisj hfL hfR hM hA hC h
+
+/-- C18 for the differ's scripts: the legacy formatter completes on them and returns at least one entry per action
+(`hc`: no comment of the script has the text `None`, which lxml never produces). -/
+theorem C18_old_formatter_total_on_differ_scripts (M : List (Nat × Nat)) (hL : L.WF) (hR : R.WF)
+    (hdisj : ∀ i ∈ ids L, i ∉ ids R) (hfL : ∀ i ∈ ids L, i < fresh) (hfR : ∀ i ∈ ids R, i < fresh)
+    (hM : GoodMatching L R M) (hA : ∀ x ∈ Tree.bfs R, (keys x.payload.attrs).Nodup)
+    (hC : ∀ x ∈ Tree.bfs R, x.payload.kind = .comment → x.payload.tag = [])
+    (h : scriptGen qn cfg L R M fresh = .ok (script, final))
+    (hc : ∀ a ∈ script, ∀ tgt pos, a ≠ .insertComment tgt pos none) :
+    ∃ es, oldRun qn ⟨L, fresh⟩ script = .ok es ∧ script.length ≤ es.length := by
+  obtain ⟨nx, hs⟩ := C05_differ_script_accepted qn cfg L R fresh script final M hL hR hdisj hfL hfR hM hA hC h
+  exact C18_total_of_strict qn _ _ script hc hs
 
 /-- C03, the direction tests cannot settle: documents that differ (as values, up to attribute order and ignored
 attributes) never get an empty script. -/
